@@ -45,6 +45,36 @@ impl GrepLine<'_> {
     }
 }
 
+/// The lines of a record whose code consists of several lines, each with its line number and
+/// its share of the submatches.
+fn split_multiline_grep_line(grep_line: GrepLine) -> Vec<GrepLine> {
+    if !grep_line.code.contains('\n') {
+        return vec![grep_line];
+    }
+    let mut lines = Vec::new();
+    let mut start = 0;
+    for (i, piece) in grep_line.code.split('\n').enumerate() {
+        let code = piece.strip_suffix('\r').unwrap_or(piece);
+        let end = start + code.len();
+        lines.push(GrepLine {
+            grep_type: grep_line.grep_type.clone(),
+            path: Cow::from(grep_line.path.to_string()),
+            line_number: grep_line.line_number.map(|n| n + i),
+            line_type: grep_line.line_type,
+            code: Cow::from(code.to_string()),
+            submatches: grep_line.submatches.as_ref().map(|submatches| {
+                submatches
+                    .iter()
+                    .map(|&(a, b)| (a.clamp(start, end) - start, b.clamp(start, end) - start))
+                    .filter(|(a, b)| a < b)
+                    .collect()
+            }),
+        });
+        start += piece.len() + 1;
+    }
+    lines
+}
+
 #[derive(Clone, Copy, Debug, PartialEq, Eq, Deserialize)]
 #[serde(rename_all = "lowercase")]
 pub enum LineType {
@@ -90,14 +120,7 @@ impl StateMachine<'_> {
             return Ok(false);
         }
 
-        let (previous_path, previous_line_type, previous_line, try_parse) = match &self.state {
-            State::Grep(_, line_type, path, line_number) => {
-                (Some(path.clone()), Some(line_type), line_number, true)
-            }
-            State::Unknown => (None, None, &None, true),
-            _ => (None, None, &None, false),
-        };
-        if !try_parse {
+        if !matches!(self.state, State::Grep(_, _, _, _) | State::Unknown) {
             return Ok(false);
         }
 
@@ -118,13 +141,29 @@ impl StateMachine<'_> {
         if matches!(grep_line.line_type, LineType::Ignore) {
             return Ok(true);
         }
+        // A match which spans several lines (`rg -U`) arrives as one record: render its lines
+        // one by one.
+        for grep_line in split_multiline_grep_line(grep_line) {
+            self.handle_parsed_grep_line(grep_line)?;
+            self.painter.emit()?;
+        }
+        Ok(true)
+    }
+
+    fn handle_parsed_grep_line(&mut self, grep_line: GrepLine) -> std::io::Result<()> {
+        let (previous_path, previous_line_type, previous_line) = match &self.state {
+            State::Grep(_, line_type, path, line_number) => {
+                (Some(path.clone()), Some(*line_type), *line_number)
+            }
+            _ => (None, None, None),
+        };
         let first_path = previous_path.is_none();
         let new_path = first_path || previous_path.as_deref() != Some(&grep_line.path);
         let line_number_jump =
-            previous_line < &grep_line.line_number.as_ref().map(|n| n.saturating_sub(1));
+            previous_line < grep_line.line_number.as_ref().map(|n| n.saturating_sub(1));
         // Emit a '--' section separator when output contains context lines (i.e. *grep option -A, -B, -C is in effect).
         let new_section = !new_path
-            && (previous_line_type == Some(&LineType::Context)
+            && (previous_line_type == Some(LineType::Context)
                 || grep_line.line_type == LineType::Context)
             && line_number_jump;
         if new_path {
@@ -150,8 +189,7 @@ impl StateMachine<'_> {
                 self.emit_classic_format_grep_line(grep_line)
             }
             _ => delta_unreachable("Impossible state while handling grep line."),
-        }?;
-        Ok(true)
+        }
     }
 
     // Emulate ripgrep output: each section of hits from the same path has a header line,
